@@ -9,6 +9,7 @@ import (
 
 	"github.com/KevoDB/kevo/pkg/common/iterator"
 	"github.com/KevoDB/kevo/pkg/common/iterator/filtered"
+	"github.com/KevoDB/kevo/pkg/verifhook"
 
 	"verif/internal/core"
 	"verif/internal/kv"
@@ -357,6 +358,10 @@ func runC05Concurrent(c *core.Ctx, res *core.Result) {
 			e.FlushImMemTables()
 		}
 	}
+	// yields at the hook sites (also between the level links of a skiplist insert) widen the windows
+	// in which a half-finished write is reachable
+	verifhook.SetYield(r.U64(), int64([]int{0, 100, 400}[r.Intn(3)]))
+	defer verifhook.SetYield(0, 0)
 	var stop atomic.Bool
 	var wg sync.WaitGroup
 	var mu sync.Mutex
